@@ -57,8 +57,10 @@ type bits uint8
 
 const (
 	P  bits = 1
-	H  bits = 2 // HP: points to method-local memory that directly holds P values
-	HH bits = 4 // points to method-local memory that holds H/HH values (a load yields H|HH, not P)
+	H  bits = 2  // HP: points to method-local memory that directly holds P values
+	HH bits = 4  // points to method-local memory that holds H/HH values (a load yields H|HH, not P)
+	G  bits = 8  // the value is, or was loaded through, a package-level variable (memory shared by everybody)
+	GH bits = 16 // points to method-local memory that holds G values (a load yields G)
 )
 
 // ---------------------------------------------------------------- whitelist
@@ -102,6 +104,7 @@ var whitelist = []wlEntry{
 	{"fmt.", "formatting functions only read their operands (reflection based, no Set calls)"},
 	{"errors.", "errors.Is/As/Unwrap/New/Join read the chain; As writes only to its target, which callers allocate locally"},
 	{"strings.", "pure functions over strings / read-only over slices"},
+	{"(*strings.Replacer).", "strings.Replacer: 'safe for concurrent use by multiple goroutines' (type doc); Replace/WriteString read the replacer"},
 	{"bytes.", "bytes.NewBuffer*/Equal/Contains take ownership of or read the slice; heimdall passes fresh or immutable data"},
 	{"len", "builtin, read-only"},
 	{"cap", "builtin, read-only"},
@@ -333,10 +336,92 @@ func isIterSig(t types.Type) bool {
 	return ok && b.Kind() == types.Bool
 }
 
+// ---------------------------------------------------------------- destination arguments
+//
+// Callees on the whitelist above are "read-only with respect to their arguments" EXCEPT for the argument(s)
+// that are their documented destination: the value decoded into, the buffer read into / appended to, the writer
+// printed to.  These are checked first: a receiver-derived (or package-level) value in a destination position is a
+// write, whatever the whitelist says about the callee.  (Audit 2026-10-02: json.Unmarshal(b, &a.m),
+// io.ReadFull(r, a.buf), strconv.AppendInt(a.scratch[:0], …), fmt.Fprintf(&a.buf, …), errors.As(err, &a.last) were
+// not reported.)  Index 0 is the receiver of a method.
+type dstEntry struct {
+	Name  string // prefix, or exact name (up to an instantiation suffix) if Exact
+	Exact bool
+	Idx   []int
+	From  int // every argument from this index on is a destination (0 = unused)
+}
+
+var dstWriters = []dstEntry{
+	{Name: "encoding/json.Unmarshal", Exact: true, Idx: []int{1}},
+	{Name: "github.com/goccy/go-json.Unmarshal", Idx: []int{1}},
+	{Name: "gopkg.in/yaml.v3.Unmarshal", Exact: true, Idx: []int{1}},
+	{Name: "(*encoding/json.Decoder).Decode", Exact: true, Idx: []int{1}},
+	{Name: "(*github.com/goccy/go-json.Decoder).Decode", Idx: []int{1}},
+	{Name: "(*gopkg.in/yaml.v3.Decoder).Decode", Exact: true, Idx: []int{1}},
+	{Name: "(*gopkg.in/yaml.v3.Node).Decode", Exact: true, Idx: []int{1}},
+	{Name: "errors.As", Exact: true, Idx: []int{1}},
+	{Name: "(*github.com/go-jose/go-jose/v4/jwt.JSONWebToken).Claims", Exact: true, From: 2},
+	{Name: "(*github.com/go-jose/go-jose/v4/jwt.JSONWebToken).UnsafeClaimsWithoutVerification", Exact: true, From: 1},
+	{Name: "(*github.com/go-jose/go-jose/v4.JSONWebKey).UnmarshalJSON", Exact: true, Idx: []int{0}},
+	{Name: "(*github.com/go-jose/go-jose/v4.JSONWebKeySet).UnmarshalJSON", Exact: true, Idx: []int{0}},
+	{Name: "github.com/go-viper/mapstructure/v2.Decode", Idx: []int{1}},
+	{Name: "github.com/go-viper/mapstructure/v2.WeakDecode", Idx: []int{1}},
+	{Name: "github.com/go-viper/mapstructure/v2.NewDecoder", Exact: true, Idx: []int{0}},
+	{Name: "io.ReadFull", Exact: true, Idx: []int{1}},
+	{Name: "io.ReadAtLeast", Exact: true, Idx: []int{1}},
+	{Name: "io.Copy", Idx: []int{0}},
+	{Name: "io.WriteString", Exact: true, Idx: []int{0}},
+	{Name: "(io.Reader).Read", Exact: true, Idx: []int{1}},
+	{Name: "(io.ReadCloser).Read", Exact: true, Idx: []int{1}},
+	{Name: "(*bytes.Buffer).Read", Idx: []int{0, 1}},
+	{Name: "(*bytes.Reader).Read", Idx: []int{0, 1}},
+	{Name: "(*strings.Reader).Read", Idx: []int{0, 1}},
+	{Name: "(*bufio.Reader).Read", Idx: []int{0, 1}},
+	{Name: "fmt.Fprint", Idx: []int{0}},
+	{Name: "fmt.Append", Idx: []int{0}},
+	{Name: "fmt.Sscan", From: 1},
+	{Name: "fmt.Fscan", From: 1},
+	{Name: "strconv.Append", Idx: []int{0}},
+	{Name: "encoding/hex.Encode", Exact: true, Idx: []int{0}},
+	{Name: "encoding/hex.Decode", Exact: true, Idx: []int{0}},
+	{Name: "(*encoding/base64.Encoding).Encode", Exact: true, Idx: []int{1}},
+	{Name: "(*encoding/base64.Encoding).Decode", Exact: true, Idx: []int{1}},
+	{Name: "(*text/template.Template).Execute", Idx: []int{1}},
+	{Name: "(*html/template.Template).Execute", Idx: []int{1}},
+	{Name: "encoding/binary.Read", Exact: true, Idx: []int{2}},
+	{Name: "encoding/binary.Write", Exact: true, Idx: []int{0}},
+	{Name: "encoding/binary.Append", Idx: []int{0}},
+}
+
+func dstWrites(name string, argIdx int) bool {
+	base := name
+	if i := strings.Index(base, "["); i > 0 {
+		base = base[:i]
+	}
+
+	for _, d := range dstWriters {
+		if (d.Exact && base != d.Name) || (!d.Exact && !strings.HasPrefix(name, d.Name)) {
+			continue
+		}
+
+		if d.From > 0 && argIdx >= d.From {
+			return true
+		}
+
+		for _, i := range d.Idx {
+			if i == argIdx {
+				return true
+			}
+		}
+	}
+
+	return false
+}
+
 func whitelisted(name string, argIdx int, b bits) (bool, string) {
 	for _, w := range whitelist {
 		if strings.HasPrefix(name, w.Prefix) {
-			if argIdx == 0 && b&P != 0 {
+			if argIdx == 0 && b&(P|G) != 0 {
 				for _, a0 := range arg0Writers {
 					if strings.HasPrefix(name, a0) {
 						return false, ""
@@ -671,6 +756,10 @@ func (fa *fnAnalysis) get(v ssa.Value) absval {
 	case *ssa.Const, *ssa.Builtin:
 		return absval{}
 	case *ssa.Global:
+		if gTaintable(x) {
+			return absval{b: G}
+		}
+
 		return absval{}
 	}
 
@@ -768,12 +857,12 @@ func (fa *fnAnalysis) addH(v ssa.Value, lvl bits, seen map[ssa.Value]bool) {
 		}
 	case *ssa.UnOp:
 		if x.Op == token.MUL {
-			fa.addH(x.X, HH, seen)
+			fa.addH(x.X, HH|(lvl&GH), seen)
 		}
 	case *ssa.Extract:
 		fa.addH(x.Tuple, lvl, seen)
 	case *ssa.Lookup:
-		fa.addH(x.X, HH, seen)
+		fa.addH(x.X, HH|(lvl&GH), seen)
 	}
 }
 
@@ -786,6 +875,10 @@ func holdLevel(b bits) bits {
 
 	if b&(H|HH) != 0 {
 		l |= HH
+	}
+
+	if b&(G|GH) != 0 {
+		l |= GH
 	}
 
 	return l
@@ -873,6 +966,11 @@ func (fa *fnAnalysis) instr(ins ssa.Instruction) {
 		switch x.Op {
 		case token.MUL:
 			if g := baseGlobal(x.X); g != nil {
+				// a pointer loaded from a package-level variable leads to memory shared by everybody
+				if gTaintable(g) {
+					fa.set(x, absval{b: G})
+				}
+
 				return
 			}
 
@@ -968,6 +1066,10 @@ func (fa *fnAnalysis) instr(ins ssa.Instruction) {
 			fa.effect("Store", fieldName(x.Addr), x.Pos(), containerOf(x.Addr), false)
 		}
 
+		if addr.b&G != 0 && !isInit(fa.fn) {
+			fa.effect("GlobalWrite", "store through a package-level pointer: "+fieldName(x.Addr), x.Pos(), nil, false)
+		}
+
 		if addr.b&P == 0 {
 			if lvl := holdLevel(val.b); lvl != 0 {
 				fa.addH(x.Addr, lvl, map[ssa.Value]bool{})
@@ -988,10 +1090,20 @@ func (fa *fnAnalysis) instr(ins ssa.Instruction) {
 			fa.effect("MapUpdate", fieldName(x.Map), x.Pos(), x.Map.Type(), false)
 		}
 
+		if m.b&G != 0 && globalMap(x.Map) == nil && !isInit(fa.fn) {
+			fa.effect("GlobalWrite", "map update through a package-level pointer: "+fieldName(x.Map), x.Pos(), nil, false)
+		}
+
 		if lvl := holdLevel(fa.get(x.Value).b | fa.get(x.Key).b); lvl != 0 && m.b&P == 0 {
 			fa.addH(x.Map, lvl, map[ssa.Value]bool{})
 		}
 	case *ssa.Send:
+		if ch := fa.get(x.Chan); ch.b&(P|G) != 0 && !isInit(fa.fn) {
+			// a send on a channel held by the mechanism (or a package-level one) hands work to a goroutine that is not
+			// analysed from this root: counted as a write
+			fa.effect("UnknownCall", "send on shared channel "+fieldName(x.Chan), x.Pos(), nil, false)
+		}
+
 		if lvl := holdLevel(fa.get(x.X).b); lvl != 0 && fa.get(x.Chan).b&P == 0 {
 			fa.addH(x.Chan, lvl, map[ssa.Value]bool{})
 		}
@@ -1021,6 +1133,37 @@ func (fa *fnAnalysis) instr(ins ssa.Instruction) {
 			fa.a.changed = true
 		}
 	}
+}
+
+// gTaintable: package-level variables of the MODULE whose value can lead to mutable memory.  Excluded: variables
+// of type error (sentinel errors created once with errors.New and only compared), function values (code), and
+// variables of other modules (their state is their business; handing it receiver-derived pointers is judged
+// by the whitelist).  The analysis is field-insensitive, so without these exclusions every error chain that
+// wraps a sentinel would look like shared memory.
+func gTaintable(g *ssa.Global) bool {
+	if g.Pkg == nil || g.Pkg.Pkg == nil || !strings.HasPrefix(g.Pkg.Pkg.Path(), module) {
+		return false
+	}
+
+	pt, ok := g.Type().Underlying().(*types.Pointer)
+	if !ok {
+		return false
+	}
+
+	t := pt.Elem()
+	if !pointerLike(t) {
+		return false
+	}
+
+	if _, isFn := t.Underlying().(*types.Signature); isFn {
+		return false
+	}
+
+	if it, isIf := t.Underlying().(*types.Interface); isIf && it.NumMethods() == 1 && it.Method(0).Name() == "Error" {
+		return false
+	}
+
+	return true
 }
 
 func globalMap(v ssa.Value) *ssa.Global {
@@ -1063,6 +1206,10 @@ func (fa *fnAnalysis) loadFrom(addr absval) absval {
 
 	if addr.b&HH != 0 {
 		b |= H | HH
+	}
+
+	if addr.b&(G|GH) != 0 {
+		b |= G
 	}
 
 	return absval{b: b}
@@ -1119,6 +1266,10 @@ func (fa *fnAnalysis) call(res ssa.Value, c *ssa.CallCommon, pos token.Pos) {
 				fa.effect("AppendInto", fieldName(argVals[0]), pos, argVals[0].Type(), false)
 			}
 
+			if len(args) > 0 && args[0].b&G != 0 && !isInit(fa.fn) {
+				fa.effect("GlobalWrite", "append into a slice reached through a package-level variable: "+fieldName(argVals[0]), pos, nil, false)
+			}
+
 			var r bits
 			if len(args) > 0 {
 				r = args[0].b
@@ -1141,6 +1292,10 @@ func (fa *fnAnalysis) call(res ssa.Value, c *ssa.CallCommon, pos token.Pos) {
 				fa.effect("CopyInto", fieldName(argVals[0]), pos, argVals[0].Type(), false)
 			}
 
+			if len(args) > 0 && args[0].b&G != 0 && !isInit(fa.fn) {
+				fa.effect("GlobalWrite", "copyinto on memory reached through a package-level variable: "+fieldName(argVals[0]), pos, nil, false)
+			}
+
 			if len(args) > 1 && args[1].b != 0 && args[0].b&P == 0 {
 				fa.addH(argVals[0], holdLevel(fa.loadFrom(args[1]).b), map[ssa.Value]bool{})
 			}
@@ -1148,9 +1303,17 @@ func (fa *fnAnalysis) call(res ssa.Value, c *ssa.CallCommon, pos token.Pos) {
 			if len(args) > 0 && args[0].b&P != 0 {
 				fa.effect("Delete", fieldName(argVals[0]), pos, argVals[0].Type(), false)
 			}
+
+			if len(args) > 0 && args[0].b&G != 0 && !isInit(fa.fn) {
+				fa.effect("GlobalWrite", "delete on memory reached through a package-level variable: "+fieldName(argVals[0]), pos, nil, false)
+			}
 		case "clear":
 			if len(args) > 0 && args[0].b&P != 0 {
 				fa.effect("Clear", fieldName(argVals[0]), pos, argVals[0].Type(), false)
+			}
+
+			if len(args) > 0 && args[0].b&G != 0 && !isInit(fa.fn) {
+				fa.effect("GlobalWrite", "clear on memory reached through a package-level variable: "+fieldName(argVals[0]), pos, nil, false)
 			}
 		default:
 			setRes(absval{})
@@ -1454,13 +1617,33 @@ func (fa *fnAnalysis) unknown(name string, c *ssa.CallCommon, args []absval, arg
 			continue
 		}
 
-		if wl, reason := whitelisted(name, i, fa.a.mask(av.b, argVals[i].Type())); wl {
+		m := fa.a.mask(av.b, argVals[i].Type())
+
+		if dstWrites(name, i) {
+			if m&(P|H|HH) != 0 {
+				fa.effect("UnknownCall", name+" (writes this argument) <- "+fieldName(argVals[i]), pos, argVals[i].Type(), true)
+			}
+
+			if m&(G|GH) != 0 && !isInit(fa.fn) {
+				fa.effect("GlobalWrite", name+" (writes this argument) <- package-level "+fieldName(argVals[i]), pos, nil, false)
+			}
+
+			continue
+		}
+
+		if wl, reason := whitelisted(name, i, m); wl {
 			fa.a.usedWL[name] = reason
 
 			continue
 		}
 
-		fa.effect("UnknownCall", name+" <- "+fieldName(argVals[i]), pos, argVals[i].Type(), true)
+		if m&^(G|GH) != 0 {
+			fa.effect("UnknownCall", name+" <- "+fieldName(argVals[i]), pos, argVals[i].Type(), true)
+		}
+
+		if m&G != 0 && !isInit(fa.fn) {
+			fa.effect("GlobalWrite", name+" <- package-level "+fieldName(argVals[i]), pos, nil, false)
+		}
 	}
 }
 
@@ -1557,7 +1740,10 @@ type rtset struct {
 	a      *analyzer
 	whyIn  map[string]string
 	leaves map[string]string
-	gen    int // bumped whenever the set grows after construction
+	gen    int             // bumped whenever the set grows after construction
+	all    []types.Type    // every type walked (an interface VALUE may hold a pointer to any of them that implements it)
+	implC  map[string]bool // cache: interface -> some walked type implements it
+	implG  int
 }
 
 func (a *analyzer) reachTypes(root types.Type) *rtset {
@@ -1584,6 +1770,8 @@ func (rt *rtset) walk(t types.Type, from string) {
 	}
 
 	rt.seen[k] = true
+	rt.all = append(rt.all, t)
+
 	if !rt.canon[canon(t)] {
 		rt.canon[canon(t)] = true
 		if rt.whyIn != nil {
@@ -1720,10 +1908,42 @@ func (rt *rtset) directHit(t types.Type, seen map[string]bool, depth int) bool {
 			}
 		}
 
-		return false
+		return rt.walkedImplements(t, u)
 	default:
 		return true
 	}
+}
+
+// walkedImplements: does (a pointer to) some type of the receiver's type structure implement interface u?  A
+// concrete field such as `out bytes.Buffer` is converted to io.Writer at the call site (&a.out), which no
+// interface-typed field of the structure announces.
+func (rt *rtset) walkedImplements(t types.Type, u *types.Interface) bool {
+	if rt.implC == nil || rt.implG != len(rt.all) {
+		rt.implC, rt.implG = map[string]bool{}, len(rt.all)
+	}
+
+	k := t.String()
+	if r, ok := rt.implC[k]; ok {
+		return r
+	}
+
+	r := false
+
+	for _, c := range rt.all {
+		if _, isIf := c.Underlying().(*types.Interface); isIf {
+			continue
+		}
+
+		if types.Implements(c, u) || types.Implements(types.NewPointer(c), u) {
+			r = true
+
+			break
+		}
+	}
+
+	rt.implC[k] = r
+
+	return r
 }
 
 func (rt *rtset) argMayHit(t types.Type, seen map[string]bool, depth int) bool {
@@ -1764,7 +1984,7 @@ func (rt *rtset) argMayHit(t types.Type, seen map[string]bool, depth int) bool {
 			}
 		}
 
-		return false
+		return rt.walkedImplements(t, u)
 	default:
 		return true
 	}
@@ -1795,7 +2015,7 @@ func main() {
 
 			return packages.LoadSyntax
 		}(),
-		Dir:  *repo,
+		Dir: *repo,
 		Env: append(os.Environ(), "GOFLAGS=-mod=mod", "GOPROXY=off", "GOSUMDB=off", "GOTOOLCHAIN=local",
 			"GOWORK=off"),
 	}
